@@ -13,6 +13,7 @@ import (
 
 	"github.com/kardiachain/go-kardia/configs"
 	"github.com/kardiachain/go-kardia/consensus"
+	cstypes "github.com/kardiachain/go-kardia/consensus/types"
 	"github.com/kardiachain/go-kardia/lib/common"
 	"github.com/kardiachain/go-kardia/mainchain/blockchain"
 	kproto "github.com/kardiachain/go-kardia/proto/kardiachain/types"
@@ -46,7 +47,10 @@ type CrashPlan struct {
 	ManyRounds bool // height 2 is decided in round 6 only (the proposals of rounds 1-5 are not forwarded): a long WAL for
 	// one height, with many timeouts to replay
 	ZeroCommitWait bool // timeout_commit = 0: every round start is overdue, the logged new-height timeouts have negative durations
-	Round2         bool // even heights need two rounds: the round-1 proposal and its parts are not forwarded (nil votes, timeouts
+	ViaSwitch      bool // the restarted node starts consensus through ConsensusManager.SwitchToConsensus (block sync enabled, no block synced)
+	Noise          bool // in every round the victim is sent, before it votes, a proposal signed by a validator that is not the
+	// round's proposer (well-formed; the state machine rejects it - after it was logged)
+	Round2 bool // even heights need two rounds: the round-1 proposal and its parts are not forwarded (nil votes, timeouts
 	// and a second proposer in the WAL at the crash points)
 	Late bool // crash at the LAST instant with durable prefix p: just before unit p+1 is written (everything the
 	// node did since unit p - handled and gossiped messages included - is lost with the unsynced buffers)
@@ -175,7 +179,7 @@ func CrashCase(c *core.Case, plan CrashPlan, p int) {
 			injectTxs(net, txRound)
 			txRound++
 		}
-		res := net.RunSync(net.MinHeight()+1, 200, nil)
+		res := net.RunSync(net.MinHeight()+1, 200, noiseFor(net, plan))
 		if !res.Reached && !net.Halt {
 			run.Inconclusive(fmt.Sprintf("crash case %s: golden run stuck: %+v", plan.Name, res))
 			return
@@ -387,7 +391,11 @@ func CrashCase(c *core.Case, plan CrashPlan, p int) {
 				// demonstration aid: restart with the REAL timeout ticker instead of the simulator's model
 				n2.CS.VerifSetTicker(consensus.NewTimeoutTicker())
 			}
-			if err := n2.Start(); err != nil {
+			startFn := n2.Start
+			if plan.ViaSwitch {
+				startFn = n2.StartViaSwitch
+			}
+			if err := startFn(); err != nil {
 				return "start: " + err.Error()
 			}
 			return ""
@@ -657,7 +665,7 @@ func GoldenLen(plan CrashPlan) (total int, start int, err error) {
 			injectTxs(net, txRound)
 			txRound++
 		}
-		res := net.RunSync(net.MinHeight()+1, 200, nil)
+		res := net.RunSync(net.MinHeight()+1, 200, noiseFor(net, plan))
 		if !res.Reached {
 			return 0, 0, fmt.Errorf("golden run stuck: %+v", res)
 		}
@@ -779,6 +787,44 @@ func manyRoundsFilter(net *Net) {
 			return !(x.Height == 2 && x.Round <= 5)
 		}
 		return true
+	}
+}
+
+// noiseFor returns the per-phase callback of Noise plans (nil otherwise): deterministic in the run.
+func noiseFor(net *Net, plan CrashPlan) func() {
+	if !plan.Noise || plan.N < 2 {
+		return nil
+	}
+	adv := NewAdversary(net)
+	type hr struct {
+		h uint64
+		r uint32
+	}
+	done := map[hr]bool{}
+	return func() {
+		v := net.Nodes[plan.Victim]
+		if v == nil || v.Dead {
+			return
+		}
+		rs := v.CS.GetRoundState()
+		k := hr{rs.Height, rs.Round}
+		if done[k] || rs.Step > cstypes.RoundStepPropose || rs.Validators == nil {
+			return
+		}
+		done[k] = true
+		prop := rs.Validators.GetProposer().Address
+		signer := -1
+		for i, a := range net.Addrs {
+			if a != prop && i != plan.Victim {
+				signer = i
+				break
+			}
+		}
+		if signer < 0 {
+			return
+		}
+		p := adv.SignProposal(signer, rs.Height, rs.Round, 0, adv.PickFakeID(int(rs.Height)*100+int(rs.Round)))
+		net.Inject(v, &consensus.ProposalMessage{Proposal: p})
 	}
 }
 
